@@ -21,6 +21,10 @@ def run(tier, seed, replay_rows=None):
         vlib.require_tlc_ok(r, cfg)
         ck.add_tlc(cfg, r)
     runtraces.check(ck, "C03", rows=replay_rows)
+    if replay_rows is None:
+        # users mode at yield-point grain: cooperative schedules of the real ContinuousPool (limit, cancel, pool started
+        # on a context that is already done; stopper / workers / bodies starved in turn)
+        runtraces.extra(ck, "C03", "cpool", "cpool.ndjson")
     return ck.finish()
 
 
